@@ -218,7 +218,7 @@ def c12(t, md, steps, flags):
             exp = cur[:num(op[1])]
         elif k == 'clear':
             exp = []
-        elif k in ('editvec', 'editassign'):
+        elif k in ('editvec', 'editassign', 'editflex'):
             j = num(op[1])
             if j >= len(cur):
                 exp = cur
